@@ -73,7 +73,9 @@ def one(rec, kind, specid, halg, cipher, salt, count, passphrase, ptype):
 
 
 PASS_SHAPES = [(b'', 'str'), (b'a', 'str'), ('pässwörd ü'.encode(), 'str'), (b'\xff\xfe raw bytes \x00', 'bytes'), (b'x' * 1500, 'str'),
-               ('long ' * 40 + 'ÿ', 'str')]
+               ('long ' * 40 + 'ÿ', 'str'),
+               # text that is not in Unicode normal form C (combining marks, singletons, conjoining jamo): must be hashed as its UTF-8 octets
+               ('Cafe\u0301 Zu\u0308rich', 'str'), ('\u212b\u2126 \u1100\u1161\u11a8', 'str'), ('line\nbreak\r\n', 'str'), (' padded ', 'str')]
 
 
 def w_matrix(arg):
@@ -96,6 +98,22 @@ def w_matrix(arg):
     return rec
 
 
+def w_boundary(arg):
+    """passphrase lengths around every low decoded count: len(salt+passphrase) just below, at and above the count,
+    and len(passphrase) alone just below it (the 'at least one full copy' rule)"""
+    lo, hi = arg
+    rec = harness.Rec()
+    for cnt in range(lo, hi):
+        dec = rs2k.decode_count(cnt)
+        for delta in range(-18, 4):
+            n = dec + delta
+            if n < 0:
+                continue
+            pw = (b'0123456789abcdefghijklmnopqrstuvwxyzABCDEFGHIJKLMNOPQRSTUVWXYZ' * (n // 62 + 1))[:n]
+            one(rec, 'iterated', 3, [2, 8, 1][cnt % 3], [9, 7, 2][delta % 3], b'\x10\x20\x30\x40\x50\x60\x70\x80', cnt, pw, 'str')
+    return rec
+
+
 def w_counts(arg):
     halg, cipher, lo, hi, pw = arg
     rec = harness.Rec()
@@ -108,7 +126,7 @@ def w_counts(arg):
 def case_strategy():
     pw = st.one_of(
         st.binary(max_size=64).map(lambda b: (b.hex(), 'bytes')),
-        st.text(max_size=40).map(lambda t: (t.encode('utf-8', 'surrogatepass').hex(), 'str')).filter(lambda x: _utf8ok(x[0])),
+        st.one_of(st.text(max_size=40), st.text(alphabet='aeE\u0301\u0308\u212b\u1100\u1161 \n', max_size=12)).map(lambda t: (t.encode('utf-8', 'surrogatepass').hex(), 'str')).filter(lambda x: _utf8ok(x[0])),
         st.integers(0, 5000).map(lambda n: ((b'0123456789abcdef' * (n // 16 + 1))[:n].hex(), 'str')),
     )
     return st.fixed_dictionaries({
@@ -142,6 +160,8 @@ def run(tier, seed):
         for pw in pws:
             for lo in range(0, 256, 32):
                 tasks.append(('w_counts', (h, c, lo, lo + 32, pw)))
+    for lo in range(0, 48 if tier == 'quick' else 96, 6):
+        tasks.append(('w_boundary', (lo, lo + 6)))
     n, bsec = (250, 60) if tier == 'quick' else (4000, 900)
     for i in range(12):
         tasks.append(('w_random', (seed, i, n, bsec)))
